@@ -31,8 +31,10 @@ class ScriptedInput:
     """wsgi.input: hands out the scripted chunks; a read never returns more than asked and never crosses a chunk edge
     (short reads); counts reads after EOF."""
 
-    def __init__(self, chunks):
+    def __init__(self, chunks, fail_at=None):
         self.chunks = [c for c in chunks]
+        self.fail_at = fail_at  # the read with this number (0-based) fails once with a connection error; later reads go on
+        self.failed = False
         self.i = 0
         self.off = 0
         self.reads = 0
@@ -42,6 +44,9 @@ class ScriptedInput:
 
     def read(self, size=-1):
         self.reads += 1
+        if self.fail_at is not None and not self.failed and self.reads - 1 == self.fail_at:
+            self.failed = True
+            raise ConnectionResetError("connection reset by peer")
         if size is not None and not isinstance(size, int):
             raise TypeError(f"integer argument expected, got {type(size).__name__}")  # as io.BytesIO / socket files do
         if size is not None and size > sys.maxsize:
